@@ -135,13 +135,13 @@ def gen_helper_case(rnd, stub):
     """returns (name, perm_ok, dirs) with dirs = [ {filename: content} ]; the Exec lines mostly run the stub"""
     name = rnd.choice(VALID_NAMES) if rnd.random() < 0.7 else rnd.choice(NAME_POOL)
     other = rnd.choice([b"t.N2", b"t.N1x", b"T.N1", b"t.n1", name + b"x", name[:-1], b":1.6", b"t.N1 "])
-    ndirs = rnd.choice((0, 1, 1, 1, 2, 2, 3))
+    ndirs = rnd.choice((0, 1, 1, 1, 1, 1, 2, 2, 2, 3, 3))
     dirs = []
     for _ in range(ndirs):
         d = {}
-        for _ in range(rnd.choice((0, 1, 1, 1, 2))):
+        for _ in range(rnd.choice((0, 1, 1, 1, 1, 1, 2))):
             r = rnd.random()
-            fn = (name if r < 0.75 else other) + rnd.choice([b".service"] * 8 + [b".Service", b".service ", b".servic", b""])
+            fn = (name if r < 0.85 else other) + rnd.choice([b".service"] * 8 + [b".Service", b".service ", b".servic", b""])
             if b"/" in fn or b"\0" in fn or fn in (b"", b".", b"..") or len(fn) > 250:
                 continue
             ex = exec_line(rnd, stub)
